@@ -61,6 +61,9 @@ class EidField(CborField):
             return None
         if isinstance(x, str):
             return x
+        if not isinstance(x, (list, tuple)) or len(x) != 2:
+            # e.g. a byte string can be indexed just the same
+            raise ValueError('EID is not a two-item array')
 
         scheme_type = x[0]
         if scheme_type == EidField.TypeCode.dtn:
